@@ -160,6 +160,34 @@ def gen_optable():
     return "\n".join(out), rows, errors
 
 
+def enum_conversion_tables(fn, enum):
+    """teal_enums.oncompletion_to_tealer_type / transaction_type_to_tealer_type: the two dictionary literals of the function,
+    read from its AST (so that EVERY key is in the generated table), after checking that the function still is
+    `if not isinstance(value, int): value = ENUM_NAMES_TO_INT[value]` / `return INT_TO_TYPE[value]`.
+    -> (rows by int, rows by name); a name whose int is not a key of INT_TO_TYPE raises KeyError like an unknown name"""
+    import textwrap
+    tree = ast.parse(textwrap.dedent(inspect.getsource(fn))).body[0]
+    body = [st for st in tree.body if not (isinstance(st, ast.Expr) and isinstance(st.value, ast.Constant))]
+    if len(body) != 4: raise Untranslatable(f"{fn.__name__}: unexpected shape")
+    d = {}
+    for st in body[:2]:
+        if not (isinstance(st, ast.Assign) and len(st.targets) == 1 and isinstance(st.targets[0], ast.Name) and isinstance(st.value, ast.Dict)):
+            raise Untranslatable(f"{fn.__name__}: expected two dictionary literals")
+        d[st.targets[0].id] = st.value
+    if set(d) != {'ENUM_NAMES_TO_INT', 'INT_TO_TYPE'}: raise Untranslatable(f"{fn.__name__}: dictionaries {sorted(d)}")
+    if ast.unparse(body[2]) != "if not isinstance(value, int):\n    value = ENUM_NAMES_TO_INT[value]" or ast.unparse(body[3]) != "return INT_TO_TYPE[value]":
+        raise Untranslatable(f"{fn.__name__}: the lookup is no longer `INT_TO_TYPE[value]` after the name conversion")
+    names, ints = {}, {}
+    for k, v in zip(d['ENUM_NAMES_TO_INT'].keys, d['ENUM_NAMES_TO_INT'].values):
+        if not (isinstance(k, ast.Constant) and isinstance(k.value, str) and isinstance(v, ast.Constant) and isinstance(v.value, int)): raise Untranslatable(f"{fn.__name__}: name table entry")
+        names[k.value] = v.value
+    for k, v in zip(d['INT_TO_TYPE'].keys, d['INT_TO_TYPE'].values):
+        if not (isinstance(k, ast.Constant) and isinstance(k.value, int) and isinstance(v, ast.Attribute) and isinstance(v.value, ast.Name) and v.value.id == 'TealerTransactionType'):
+            raise Untranslatable(f"{fn.__name__}: type table entry")
+        ints[k.value] = int(getattr(enum, v.attr).value)
+    return sorted(ints.items()), [(n, ints[i]) for n, i in names.items() if i in ints]
+
+
 def gen_consts():
     from tealer.utils import algorand_constants as AC
     from tealer.utils import teal_enums as TE
@@ -168,6 +196,8 @@ def gen_consts():
     from tealer.detectors.abstract_detector import AbstractDetector
     nat_list = lambda xs: "[" + ", ".join(str(int(x.value) if hasattr(x, 'value') else int(x)) for x in xs) + "]"
     dets = sorted((d.NAME, str(d.TYPE)) for n, d in vars(all_detectors).items() if inspect.isclass(d) and issubclass(d, AbstractDetector) and d is not AbstractDetector)
+    oc_ints, oc_names = enum_conversion_tables(TE.oncompletion_to_tealer_type, TE.TealerTransactionType)
+    ty_ints, ty_names = enum_conversion_tables(TE.transaction_type_to_tealer_type, TE.TealerTransactionType)
     out = ["/- REGENERATED on every run by harness/extract.py from /repo (do not edit). -/",
            "namespace Tealer.Generated", "",
            f"def MAX_GROUP_SIZE : Nat := {AC.MAX_GROUP_SIZE}",
@@ -180,10 +210,10 @@ def gen_consts():
            f"def sizesU : List Nat := {nat_list(int_fields.universal_sets[int_fields.group_size_key])}",
            f"def indicesU : List Nat := {nat_list(int_fields.universal_sets[int_fields.group_index_key])}",
            f"def txnTypeU : List Nat := {nat_list(txn_types.universal_sets[txn_types.transaction_type_key])}",
-           f"def oncompletionTable : List (Nat × Nat) := [" + ", ".join(f"({i}, {int(TE.oncompletion_to_tealer_type(i).value)})" for i in range(6)) + "]",
-           f"def typeEnumTable : List (Nat × Nat) := [" + ", ".join(f"({i}, {int(TE.transaction_type_to_tealer_type(i).value)})" for i in range(1, 7)) + "]",
-           f"def oncompletionNames : List (String × Nat) := [" + ", ".join(f"({lean_str(n)}, {int(TE.oncompletion_to_tealer_type(n).value)})" for n in ["NoOp", "OptIn", "CloseOut", "ClearState", "UpdateApplication", "DeleteApplication"]) + "]",
-           f"def typeEnumNames : List (String × Nat) := [" + ", ".join(f"({lean_str(n)}, {int(TE.transaction_type_to_tealer_type(n).value)})" for n in ["pay", "keyreg", "acfg", "axfer", "afrz", "appl"]) + "]",
+           "def oncompletionTable : List (Nat × Nat) := [" + ", ".join(f"({i}, {t})" for i, t in oc_ints) + "]",
+           "def typeEnumTable : List (Nat × Nat) := [" + ", ".join(f"({i}, {t})" for i, t in ty_ints) + "]",
+           "def oncompletionNames : List (String × Nat) := [" + ", ".join(f"({lean_str(n)}, {t})" for n, t in oc_names) + "]",
+           "def typeEnumNames : List (String × Nat) := [" + ", ".join(f"({lean_str(n)}, {t})" for n, t in ty_names) + "]",
            f"def addrMarkers : List String := [{lean_str(addr_fields.ANY_ADDRESS)}, {lean_str(addr_fields.NO_ADDRESS)}, {lean_str(addr_fields.SOME_ADDRESS)}, {lean_str(addr_fields.CREATOR_ADDRESS)}]",
            f"def ANY_ADDRESS : String := {lean_str(addr_fields.ANY_ADDRESS)}",
            f"def NO_ADDRESS : String := {lean_str(addr_fields.NO_ADDRESS)}",
@@ -606,7 +636,7 @@ def regenerate():
     res = {'errors': [], 'files': [], 'changed': []}
     try:
         txt, rows, errs = gen_optable()
-        res['errors'] += errs
+        res['errors'] += [f"OpTable: {x}" for x in errs]
         if write_if_changed(os.path.join(GEN, 'OpTable.lean'), txt): res['changed'].append('OpTable.lean')
         res['op_rows'] = len(rows)
     except Exception as e:  # noqa
@@ -623,7 +653,7 @@ def regenerate():
         res['errors'].append(f"Consts: {type(e).__name__}: {e}")
     try:
         txt, errs = gen_leaf()
-        res['errors'] += errs
+        res['errors'] += [f"Leaf: {x}" for x in errs]
         if write_if_changed(os.path.join(GEN, 'Leaf.lean'), txt): res['changed'].append('Leaf.lean')
     except Exception as e:  # noqa
         res['errors'].append(f"Leaf: {type(e).__name__}: {e}")
